@@ -15,7 +15,7 @@ package weighted_sum
 //@      typeis(x, WeightedSumAddedCriterion) && exists k int :: 0 <= k && k < len(x.(WeightedSumAddedCriterion).weights) && x.(WeightedSumAddedCriterion).weights[k].Id == id
 
 //@ func (*weightedSumParams).Criterion
-//@   property C07 C15 C18
+//@   property C07 C15 C18 C03
 //@   requires p.weightedCriteria != nil
 //@   panics_iff [missing] !(exists k int :: 0 <= k && k < len(*p.weightedCriteria) && (*p.weightedCriteria)[k].Id == criterion)
 //@   ensures [first_match] exists k int :: 0 <= k && k < len(*p.weightedCriteria) && result == (*p.weightedCriteria)[k] && result.Id == criterion
@@ -77,3 +77,9 @@ package weighted_sum
 //@   ensures [C01 no_self_no_duplicates] forall i int, m int :: 0 <= i && i < len(*result) && 0 <= m && m < len((*result)[i].BetterThanOrSameAs) ==>
 //@             (*result)[i].BetterThanOrSameAs[m] != (*result)[i].Alternative.Id
 //@             && (forall q int :: m < q && q < len((*result)[i].BetterThanOrSameAs) ==> (*result)[i].BetterThanOrSameAs[m] != (*result)[i].BetterThanOrSameAs[q])
+
+// ---- importance of a criterion for this method (C15): its weight times the values cumulated over the considered alternatives
+//@ func (*WeightedSumBiasListener).RankCriteriaAscending$1
+//@   property C15 C07
+//@   requires wParams.weightedCriteria != nil
+//@   ensures [weight_times_value] exists k int :: 0 <= k && k < len(*wParams.weightedCriteria) && (*wParams.weightedCriteria)[k].Id == criterion && result == (*wParams.weightedCriteria)[k].Weight * value
